@@ -59,6 +59,7 @@ package dhcpv6
 
 //@ func (p *PrefixPool) Release
 //@   modifies p.allocated, p.available
+//@   sets v6RelPrefix = v6RelPrefix + 1
 //@   ensures duid !in p.allocated
 //@   ensures forall d string :: d != duid ==> (d in p.allocated) == locked(d in p.allocated) && p.allocated[d] == locked(p.allocated[d])
 //@   ensures locked(duid in p.allocated) ==> len(p.available) == locked(len(p.available)) + 1 && p.available[len(p.available)-1] == locked(p.allocated[duid])
@@ -94,6 +95,7 @@ package dhcpv6
 
 //@ func (s *Server) releasePrefix
 //@   modifies s.prefixPool.allocated, s.prefixPool.available
+//@   sets v6RelPrefix = v6RelPrefix + 1
 
 //@ func (m *Message) GetOption
 //@   modifies nothing
@@ -121,3 +123,19 @@ package dhcpv6
 //@   ghost endCalls mathint = 0
 //@   ghost endQuar mathint = 0
 //@   ensures endCalls == 1 && endQuar == 1
+
+// Building an Advertise or a Reply (SOLICIT, REQUEST, RENEW, REBIND) never returns an address or
+// prefix to a free list and never quarantines one: bindings end only through RELEASE / DECLINE.
+//@ func (s *Server) buildReply
+//@   ghost v6RelAddr mathint = 0
+//@   ghost v6Quarantined mathint = 0
+//@   ghost v6RelPrefix mathint = 0
+//@   ghost relAddrCalls mathint = 0
+//@   ensures v6RelAddr == 0 && v6Quarantined == 0 && v6RelPrefix == 0 && relAddrCalls == 0
+
+//@ func (s *Server) buildAdvertise
+//@   ghost v6RelAddr mathint = 0
+//@   ghost v6Quarantined mathint = 0
+//@   ghost v6RelPrefix mathint = 0
+//@   ghost relAddrCalls mathint = 0
+//@   ensures v6RelAddr == 0 && v6Quarantined == 0 && v6RelPrefix == 0 && relAddrCalls == 0
